@@ -13,7 +13,7 @@ namespace Orca.Sem
 
 /-- the monitor's definition of "once per call on every normal path" -/
 theorem c17_monitor_finish (F : Func) (base : List Nat) (s : St) :
-    finish true F base (.normal s) = .returned (s.stack.take F.nres) (s.fire F.exit)
+    finish true F base (.normal s) = .returned (s.stack.take F.nres) ((s.fire F.endBefore).fire F.exit)
     ∧ (∀ pd, finish true F base (.br 0 pd s)
           = .returned (s.stack.take F.nres) (((s.exitTo base F.nres).fire (saPs pd)).fire F.exit))
     ∧ finish true F base (.ret s) = .returned (s.stack.take F.nres) s
